@@ -27,14 +27,16 @@ def _lit(rnd, rich=True):
     return M.lit(str(rnd.randint(0, 3)), DT_CUSTOM)
 
 
-def general_graph(rnd, max_nodes=7, bnodes=True, rich_literals=True, inst_prop=M.RDF_TYPE):
+def general_graph(rnd, max_nodes=7, bnodes=True, rich_literals=True, inst_prop=M.RDF_TYPE, odd_names=False):
     """2..max_nodes subject nodes (<= 25 % blank), 1-3 classes, nodes in 0-3 classes, 1-4 properties in two
     namespaces (one a prefix of the other), objects: typed / untyped IRIs, blank nodes, literals; 0-3 values"""
     nn = rnd.randint(2, max_nodes)
-    nodes = [M.iri(EX + "n%d" % i) if (not bnodes or rnd.random() < 0.78) else M.bnode("b%d" % i) for i in range(nn)]
+    def name(i):      # local names with ':', '.', '-', '_' and a leading digit are legal prefixed-name local parts
+        return rnd.choice(["item:%d", "n.%d", "n-%d_x", "%dn"]) % i if (odd_names and rnd.random() < .5) else "n%d" % i
+    nodes = [M.iri(EX + name(i)) if (not bnodes or rnd.random() < 0.78) else M.bnode("b%d" % i) for i in range(nn)]
     classes = [EX + "C%d" % i for i in range(rnd.randint(1, 3))]
     props = [EX + "p%d" % i for i in range(rnd.randint(1, 3))]
-    if rnd.random() < .35:
+    if rnd.random() < .45:
         props.append(EX2 + "q0")
     if rnd.random() < .2:
         props.append(OTHER + "r0")
@@ -56,6 +58,29 @@ def general_graph(rnd, max_nodes=7, bnodes=True, rich_literals=True, inst_prop=M
                 else:
                     o = _lit(rnd, rich_literals)
                 T.add((n, p, o))
+    T = sorted(T, key=str)
+    rnd.shuffle(T)
+    return T
+
+
+def dense_graph(rnd, inst_prop=M.RDF_TYPE):
+    """few nodes, many links: 3-5 subjects (40 % blank), 1-2 classes, 1-2 properties, 0-4 node-valued objects per
+    (subject, property) drawn from IRI and blank nodes of the same classes: mixed node kinds with shape references"""
+    nn = rnd.randint(3, 5)
+    nodes = [M.iri(EX + "n%d" % i) if rnd.random() < .6 else M.bnode("b%d" % i) for i in range(nn)]
+    classes = [EX + "C%d" % i for i in range(rnd.randint(1, 2))]
+    props = [EX + "p%d" % i for i in range(rnd.randint(1, 2))]
+    T = set()
+    for n in nodes:
+        cs = [c for c in classes if rnd.random() < .7] or [classes[0]]
+        for c in cs:
+            T.add((n, inst_prop, M.iri(c)))
+    for n in nodes:
+        for p in props:
+            for o in rnd.sample(nodes, rnd.randint(0, min(4, len(nodes)))):
+                T.add((n, p, o))
+            if rnd.random() < .3:
+                T.add((n, p, _lit(rnd, False)))
     T = sorted(T, key=str)
     rnd.shuffle(T)
     return T
